@@ -260,19 +260,6 @@ func current() *Run {
 // Active reports whether a simulation run is active.
 func Active() bool { return current() != nil }
 
-func goid() int64 {
-	var buf [64]byte
-	n := runtime.Stack(buf[:], false)
-	// "goroutine 123 ["
-	s := buf[10:n]
-	i := 0
-	for i < len(s) && s[i] >= '0' && s[i] <= '9' {
-		i++
-	}
-	id, _ := strconv.ParseInt(string(s[:i]), 10, 64)
-	return id
-}
-
 func (r *Run) self() *G {
 	id := goid()
 	r.mu.Lock()
@@ -753,6 +740,18 @@ func (m *Mutex) Lock() {
 	}
 	if g.abort {
 		return
+	}
+	if g.unchecked > 0 {
+		// monitor mode (bulk set-up work of a harness): a free mutex is taken without a scheduling point
+		r.mu.Lock()
+		if !m.held {
+			m.held = true
+			m.owner = g
+			g.addW(m)
+			r.mu.Unlock()
+			return
+		}
+		r.mu.Unlock()
 	}
 	r.park(g, "lock", m)
 	r.mu.Lock()
